@@ -609,3 +609,25 @@ Definition c19_cell_eqb (a b : option c19_cell) : bool :=
 
 Definition c19_modified (h h' : c19_heap) (ids : list (Z * nat)) : list Z :=
   flat_map (fun ni => if c19_cell_eqb (c19_get h (snd ni)) (c19_get h' (snd ni)) then [] else [fst ni]) ids.
+
+(* ---- the Grid object itself: its dataset and its mutable helper containers ----
+   (_gdf_cached_parameters, _poly_collection_cached_parameters, _line_collection_cached_parameters,
+   the ball-tree and kd-tree slots), each a heap cell *)
+Record c19_grid := { g_ds : nat; g_aux : list nat }.
+
+Fixpoint c19_alloc_many (h : c19_heap) (cs : list c19_cell) : c19_heap * list nat :=
+  match cs with
+  | [] => (h, [])
+  | c :: t => let '(h1, i) := c19_alloc h c in
+              let '(h2, l) := c19_alloc_many h1 t in (h2, i :: l)
+  end.
+
+(* Grid.copy(): Grid(self._ds.copy(deep=True), ...) — the constructor creates new, empty containers *)
+Definition c19_grid_copy (h : c19_heap) (g : c19_grid) : c19_heap * c19_grid :=
+  let '(h1, d1) := c19_copy h (g_ds g) in
+  let '(h2, aux) := c19_alloc_many h1 (map (fun _ => C19Dict []) (g_aux g)) in
+  (h2, {| g_ds := d1; g_aux := aux |}).
+
+(* variant: copy.copy(self) with a deep-copied _ds — the containers are the very same objects *)
+Definition c19_grid_copy_shallow (h : c19_heap) (g : c19_grid) : c19_heap * c19_grid :=
+  let '(h1, d1) := c19_copy h (g_ds g) in (h1, {| g_ds := d1; g_aux := g_aux g |}).
